@@ -3,6 +3,7 @@ package model
 import (
 	"fmt"
 	"math/rand"
+	"strings"
 )
 
 // ArgVectors returns n argument vectors: two fixed extremes plus random ones.
@@ -54,6 +55,10 @@ func ArgVectors(r *rand.Rand, n int) []*Args {
 	for len(out) < n {
 		out = append(out, mk(nil))
 	}
+	// one vector carries values longer than the runtime's output buffer (4096)
+	long := out[len(out)-1]
+	long.S[r.Intn(4)] = strings.Repeat("L<", 2600)
+	long.L = append(long.L, strings.Repeat("m", 4097))
 	return out
 }
 
@@ -71,6 +76,8 @@ func (p *Program) ExprSlots() map[int]string {
 				m[a.X.ID] = "attribute expression" + where
 			case AHref:
 				m[a.X.ID] = "href expression" + where
+			case AOnEvent:
+				m[a.X.ID] = "on* script expression" + where
 			case AClass:
 				for _, pt := range a.Parts {
 					if pt.Cond != nil {
